@@ -12,7 +12,7 @@ from ..seeds import digest
 ID = "C11"
 LEVEL = "exploration"
 BUDGET = {
-    "quick": {"runs": 640, "wall": 420, "chunk": 8, "per_run_cap": 240},
+    "quick": {"runs": 1600, "wall": 420, "chunk": 8, "per_run_cap": 240},
     "thorough": {"runs": 16000, "wall": 3300, "chunk": 40, "per_run_cap": 240},
 }
 WEIGHTED = ["UPGrad", "DualProj", "MGDA", "PCGrad", "CAGrad", "IMTLG", "AlignedMTL", "Krum", "Mean", "Sum", "Constant", "Random"]
